@@ -27,18 +27,22 @@ def c15(tier, seed, replay):
         # ---- reference runs: one fresh interpreter per (template, configuration)
         fresh = [{"rid": 1000 * t + c, "ops": [["newproblem", t, 0], ["newsolver", 1, c], ["drain", 1, 0]]}
                  for t in range(1, NT + 1) for c in range(1, NC + 1)]
+        # derived templates: part b of Problem.split(2, 0) of a FRESH base problem (nothing built on it before)
+        NTA = NT + 2 * NT
+        fresh += [{"rid": 1000 * (NT + 2 * (t - 1) + b) + c, "ops": [["newproblem", t, 0], ["split", 1, b], ["newsolver", 2, c], ["drain", 1, 0]]}
+                  for t in range(1, NT + 1) for b in (1, 2) for c in range(1, NC + 1)]
         ref_runs = _exec([f for f in fresh if f["rid"] % 1000 != 4], envI, tmp, "ref", batch=1)
-        refsols = [[None] * NC for _ in range(NT)]
+        refsols = [[None] * NC for _ in range(NTA)]
         for x in ref_runs:
             t, c = divmod(x["rid"], 1000)
-            if x["obs"][2]["raised"] or x["obs"][1]["raised"]:
+            if any(o["raised"] for o in x["obs"]):
                 raise Machinery(f"reference run failed: {x}")
-            refsols[t - 1][c - 1] = {"sols": x["obs"][2]["sols"], "stats": x["obs"][2]["stats"]}
-        for t in range(NT):
+            refsols[t - 1][c - 1] = {"sols": x["obs"][-1]["sols"], "stats": x["obs"][-1]["stats"]}
+        for t in range(NTA):
             # configuration 4 = a custom-registered clone of the default variable heuristic (registered after another
             # heuristic made by the same factory): its reference IS the run of configuration 1
             refsols[t][3] = refsols[t][0]
-        nsols = [[len(refsols[t][c]["sols"]) for c in range(NC)] for t in range(NT)]
+        nsols = [[len(refsols[t][c]["sols"]) for c in range(NC)] for t in range(NTA)]
         maxops = 5 if tier == "quick" else 6
         (tmp / "ref.json").write_text(json.dumps({"nt": NT, "nc": NC, "maxops": maxops, "nsols": nsols}))
         (tmp / "refsols.json").write_text(json.dumps(refsols))
@@ -58,7 +62,20 @@ def c15(tier, seed, replay):
         cap = 1500 if tier == "quick" else 40000
         if len(hs) > cap:
             r.shuffle(hs)
-            hs = hs[:cap]
+            # stratified: a third of the budget for histories in which a problem is split AFTER a solver was built on it
+            # and the part is then solved (the split of a used problem object), the rest uniformly
+            def used_then_split(h):
+                built = set()
+                for k, (op, a, b) in enumerate(h):
+                    if op == "newsolver":
+                        built.add(a)
+                    if op == "split" and a in built:
+                        part = 1 + sum(1 for o in h[:k + 1] if o[0] in ("newproblem", "split"))
+                        return any(o[0] == "newsolver" and o[1] == part for o in h[k + 1:])
+                return False
+            special = [h for h in hs if used_then_split(h)][:cap // 3]
+            keys = {json.dumps(h) for h in special}
+            hs = special + [h for h in hs if json.dumps(h) not in keys][:cap - len(special)]
         histories = [{"rid": k, "ops": h} for k, h in enumerate(hs)]
         runs = []
         for tag, env in (("interpreted", envI), ("compiled", envJ)):
@@ -168,7 +185,7 @@ def c15(tier, seed, replay):
         rep.cov["capacity_edge_scenarios_compared_across_modes"] = nedge
         rep.cov["compile_seconds"] = round(cold, 1)
     rep.add(rule="(1) Histories: every behaviour of spec/ProcessHistory.tla up to max_ops operations (new problem object, "
-                 "new solver on a possibly re-used problem, one step, drain, abandon half-way, registration of a custom "
+                 "new solver on a possibly re-used problem, Problem.split of a possibly used problem (the part becomes a problem object of its own), one step, drain, abandon half-way, registration of a custom "
                  "propagator / variable heuristic / value heuristic / consistency algorithm) that contains at least one "
                  "step; each is executed inside one interpreter, in interpreted and in compiled mode, 40 histories "
                  "per process one after the other; TLC folds the history through the specification and compares every "
